@@ -168,11 +168,11 @@ func runC02(c *Ctx) {
 	}
 	kind := "id"
 	var idi IDInfo
-	var spec *tls.ClientHelloSpec
+	var newSpec func() *tls.ClientHelloSpec
 	specDesc := ""
 	if stratum < 0 && ch.Bool(35, "custom") {
 		kind = "custom"
-		spec, specDesc = GenSpec(ch, false)
+		newSpec, specDesc = GenSpecFactory(ch, false)
 		idi = IDInfo{"Custom", tls.HelloCustom}
 	} else {
 		idi = PickID(ch, stratum, true)
@@ -231,7 +231,7 @@ func runC02(c *Ctx) {
 			rs.FailAt = randFail
 			cfg.Rand = rs
 		}
-		sp := &ConnSpec{Name: fmt.Sprintf("c%d", i), ID: idi.ID, Spec: spec, CCfg: cfg, Peer: peer, SCfg: scfg, StdCfg: stdcfg,
+		sp := &ConnSpec{Name: fmt.Sprintf("c%d", i), ID: idi.ID, Spec: freshSpec(newSpec), CCfg: cfg, Peer: peer, SCfg: scfg, StdCfg: stdcfg,
 			Payload: [][]byte{[]byte("ping")}, Setup: func(l *simnet.Link) { l.Frag = frag }}
 		if fingerprint {
 			// fingerprint this parrot's own hello (taken from a throw-away build) and re-apply it
